@@ -4,7 +4,7 @@ import Ruint.Model.Root
 /-! Driver for C13: evaluates the models (`Ruint.Pow.*`, `Ruint.Log.*`, `Ruint.Root.*`) and the spec
     (independent ℕ arithmetic). The float-derived first guesses of `log`/`root` are read from the
     implementation's output line (`e<hex>` / `g<hex>`), the models run **from that estimate**, and the
-    hypotheses of `log_spec` / `root_spec` are evaluated on it (`pred:false hyp …` when they fail). -/
+    hypotheses of `log_spec_partial` / `root_spec_partial` are evaluated on it (`pred:false hyp …` when they fail). -/
 open Ruint Ruint.Pow Ruint.Log Ruint.Root
 
 namespace Ruint.DrvC13
